@@ -26,7 +26,13 @@ type envField struct {
 
 func (g *hostGen) envField(name string) envField {
 	inner := &HT{K: "struct", F: []HField{{Name: "P", Tag: "p", T: &HT{K: "float64"}}, {Name: "Q", Tag: "q", T: &HT{K: "string"}}}}
-	switch g.r.Rng.Intn(8) {
+	switch g.r.Rng.Intn(11) {
+	case 8:
+		return envField{name, &HT{K: "slice", Elem: inner}, "len(" + name + ")"}
+	case 9:
+		return envField{name, &HT{K: "map", Key: &HT{K: "string"}, Elem: inner}, "len(" + name + ")"}
+	case 10:
+		return envField{name, &HT{K: "struct", F: []HField{{Name: "In", Tag: "in", T: inner}, {Name: "N", Tag: "n", T: &HT{K: "int"}}}}, name + ".in.p + " + name + ".n"}
 	case 0:
 		return envField{name, &HT{K: "int"}, name}
 	case 1:
@@ -50,7 +56,8 @@ func implTypeEnvEquals(a, b *types.Env) bool {
 	ok := true
 	a.ForEach(func(n string, t *types.Type) {
 		u, found := b.Get(n)
-		if !found || !types.Equals(t, u) {
+		// the harness's own by-name structural comparison, not types.Equals (the function under test)
+		if !found || !refEq(FromGo(t), FromGo(u)) {
 			ok = false
 		}
 	})
@@ -83,7 +90,7 @@ func runC07(r *Run) {
 		src := strings.Join(parts, " + ")
 		// run-time partner
 		t2, v2, kind := t1, g.val(t1, 2, 0), "same-go-type"
-		switch r.Rng.Intn(8) {
+		switch r.Rng.Intn(10) {
 		case 0:
 			v2, kind = v1, "same-value"
 		case 1: // same shape, fields permuted and renamed on the Go side
@@ -116,6 +123,16 @@ func runC07(r *Run) {
 		case 4: // an extra name
 			t2 = &HT{K: "struct", F: append(append([]HField{}, t1.F...), HField{Name: "Extra", Tag: "zz", T: &HT{K: "int"}})}
 			v2, kind = g.val(t2, 2, 0), "extra-name"
+		case 6, 7: // object-typed bindings: the same fields declared in another order (equal types: field order is irrelevant)
+			if t3, changed := mapInner(t1, false, true); changed {
+				t2 = t3
+				v2, kind = g.val(t2, 2, 0), "inner-fields-permuted"
+			}
+		case 8: // object-typed bindings: names exchanged while the types stay in place (p: str, q: num — a different type)
+			if t3, changed := mapInner(t1, false, false); changed {
+				t2 = t3
+				v2, kind = g.val(t2, 2, 0), "inner-names-exchanged"
+			}
 		case 5: // nil where the compile-time value had a pointer
 			for q, f := range t1.F {
 				if f.T.K == "ptr" {
@@ -186,3 +203,38 @@ func runC07(r *Run) {
 }
 
 func reflectValue(v reflect.Value) reflect.Value { return v }
+
+// mapInner rewrites every struct type strictly below the top level: perm = fields declared in reverse order (same
+// names, same types: an equal object type); otherwise the tags are rotated while the types stay in place (same names,
+// other types). Go-side field names are changed too, so that the result is a different Go type.
+func mapInner(t *HT, inside bool, perm bool) (*HT, bool) {
+	c := *t
+	changed := false
+	if t.Elem != nil {
+		e, ch := mapInner(t.Elem, true, perm)
+		c.Elem, changed = e, ch
+	}
+	if t.K == "struct" {
+		c.F = nil
+		for _, f := range t.F {
+			ft, ch := mapInner(f.T, true, perm)
+			changed = changed || ch
+			c.F = append(c.F, HField{Name: f.Name, Tag: f.Tag, T: ft})
+		}
+		if inside && len(c.F) > 1 {
+			n := len(c.F)
+			fs := make([]HField, n)
+			for i := range c.F {
+				if perm {
+					fs[i] = c.F[n-1-i]
+				} else {
+					fs[i] = HField{Name: c.F[i].Name, Tag: c.F[(i+1)%n].Tag, T: c.F[i].T}
+				}
+				fs[i].Name = fs[i].Name + "x"
+			}
+			c.F = fs
+			changed = true
+		}
+	}
+	return &c, changed
+}
